@@ -751,7 +751,16 @@ func binary(p *Parser, left Expr) (Expr, error) {
 	}
 	opToken := *p.previous
 
-	expr, err := p.expressionWithPrec(p.rule(opToken.Tag).prec)
+	// binary operators are left associative, so the right operand only takes
+	// operators that bind tighter. compound assignments are right associative
+	prec := p.rule(opToken.Tag).prec
+	switch opToken.Tag {
+	case PlusEqual, MinusEqual, MultiplyEqual, DivideEqual:
+	default:
+		prec++
+	}
+
+	expr, err := p.expressionWithPrec(prec)
 	if err != nil {
 		return nil, err
 	}
